@@ -31,6 +31,8 @@ def _apply(root: str, edits) -> Dict[str, str] | None:
                     with open(pth, encoding="utf-8") as fh:
                         overlay[os.path.relpath(pth, root)] = ast.unparse(ast.parse(fh.read()))
         return overlay
+    if isinstance(edits, str) and edits.startswith("patch:"):
+        return _apply_patch(root, edits[6:])
     for (rel, old, new) in edits:
         src = overlay.get(rel)
         if src is None:
@@ -42,12 +44,45 @@ def _apply(root: str, edits) -> Dict[str, str] | None:
     return overlay
 
 
+def _apply_patch(root: str, patch_path: str) -> Dict[str, str] | None:
+    """Overlay produced by a unified diff (a recorded behaviour-preserving refactoring): the touched files are copied to a
+    scratch directory outside /repo and /verif, patched there, read back and the directory removed. None if the diff
+    does not apply to the current tree (the tree has changed under it)."""
+    import re
+    import shutil
+    import subprocess
+    import tempfile
+    with open(patch_path, encoding="utf-8") as fh:
+        text = fh.read()
+    rels = sorted(set(re.findall(r"^\+\+\+ b/(\S+)", text, flags=re.M)))
+    if not rels:
+        return None
+    tmp = tempfile.mkdtemp(prefix="vrf_patch_")
+    try:
+        for rel in rels:
+            src = os.path.join(root, rel)
+            if not os.path.isfile(src):
+                return None
+            os.makedirs(os.path.dirname(os.path.join(tmp, rel)), exist_ok=True)
+            shutil.copy(src, os.path.join(tmp, rel))
+        p = subprocess.run(["git", "apply", "--whitespace=nowarn", patch_path], cwd=tmp, capture_output=True, text=True)
+        if p.returncode != 0:
+            return None
+        out = {}
+        for rel in rels:
+            with open(os.path.join(tmp, rel), encoding="utf-8") as fh:
+                out[rel] = fh.read()
+        return out
+    finally:
+        shutil.rmtree(tmp, ignore_errors=True)
+
+
 def _one(args):
     pid, root, variant = args
     edits = variant["edits"]
     overlay = _apply(root, edits)
     if overlay is None:
-        return (variant["name"], "skipped", [])
+        return (variant["name"], "skipped", [], [])
     try:
         project = Project(root, overlay)
         mod = importlib.import_module(f"checks.{pid}")
@@ -59,12 +94,12 @@ def _one(args):
                 raise
         new, _ = chk.split_findings()
         if new:
-            return (variant["name"], "reported", [f"{f.loc} {f.function} [{f.rule}] {f.message}" for f in new[:3]])
-        return (variant["name"], "silent", [])
+            return (variant["name"], "reported", [f"{f.loc} {f.function} [{f.rule}] {f.message}" for f in new[:3]], [(f.rule, f.function) for f in new])
+        return (variant["name"], "silent", [], [])
     except AnalysisError as e:
-        return (variant["name"], "inconclusive", [str(e)])
+        return (variant["name"], "inconclusive", [str(e)], [])
     except Exception as e:  # checker crash on a variant = inconclusive
-        return (variant["name"], "inconclusive", [f"{type(e).__name__}: {e}"])
+        return (variant["name"], "inconclusive", [f"{type(e).__name__}: {e}"], [])
 
 
 def load_corpus(pid: str):
@@ -78,6 +113,14 @@ def load_corpus(pid: str):
 def sensitivity(pid: str, root: str, chk: Check) -> dict:
     mutants, benign = load_corpus(pid)
     benign = benign + [{"name": "whole package re-printed (comments dropped, layout and quoting normalised, line numbers changed)", "edits": "unparse-all"}]
+    # the recorded behaviour-preserving refactorings (refactorings/*/patch.diff: written by independent agents, each shown
+    # equivalent on thousands of inputs): every check must stay silent on every one of them
+    rdir = os.path.join(os.path.dirname(os.path.dirname(os.path.abspath(__file__))), "refactorings")
+    if os.path.isdir(rdir):
+        for d in sorted(os.listdir(rdir)):
+            pth = os.path.join(rdir, d, "patch.diff")
+            if os.path.isfile(pth):
+                benign.append({"name": f"recorded refactoring {d}", "edits": "patch:" + pth})
     jobs = [(pid, root, v) for v in mutants + benign]
     results = []
     if jobs:
@@ -88,7 +131,9 @@ def sensitivity(pid: str, root: str, chk: Check) -> dict:
     bres = results[len(mutants):]
     survivors = [r for r in mres if r[1] in ("silent",)]
     inconclusive = [r for r in mres if r[1] == "inconclusive"]
-    benign_alarms = [f"{r[0]}: {r[1]} {r[2]}" for r in bres if r[1] in ("reported", "inconclusive")]
+    # an alarm on a benign variant is the checker's fault only if the variant adds something the tree itself does not show
+    base_keys = {(f.rule, f.function) for f in chk.findings}
+    benign_alarms = [f"{r[0]}: {r[1]} {r[2]}" for r in bres if (r[1] == "reported" and set(r[3]) - base_keys) or (r[1] == "inconclusive" and not base_keys)]
     for r in survivors:
         chk.say(f"SENSITIVITY: mutant not reported (checker weakness, not a violation): {r[0]}")
     for r in results:
@@ -104,6 +149,7 @@ def sensitivity(pid: str, root: str, chk: Check) -> dict:
         "skipped": [r[0] for r in results if r[1] == "skipped"],
         "benign": len(bres),
         "benign_silent": sum(1 for r in bres if r[1] == "silent"),
+        "benign_skipped": sum(1 for r in bres if r[1] == "skipped"),
         "per_mutant": {r[0]: {"verdict": r[1], "report": r[2][:2]} for r in mres},
     }
     return {"summary": summary, "benign_alarms": benign_alarms}
